@@ -71,6 +71,16 @@ func (h *Header) HeaderLength() uint16 {
 	}
 }
 
+// EncodedHeaderLength returns the length of the header actually present at
+// the start of the given raw packet: the 4-byte form is used whenever the first
+// byte is the long-packet flag, whatever length it announces.
+func EncodedHeaderLength(buf []byte) uint16 {
+	if len(buf) > 0 && buf[0] == longPacketFlag {
+		return longHeaderLength
+	}
+	return shortHeaderLength
+}
+
 // Unpack reads a packet header from the given buffer.
 func (h *Header) Unpack(buf []byte) error {
 	if len(buf) < 2 {
